@@ -154,3 +154,60 @@ Definition tie_perm_s (n : nat) (M : list (list Z)) (sc : Q)
             | Err _ => false
             end
      end.
+
+(* ---------------------------------------------------------------- per-line scales *)
+
+(* the stored values are the integers of line i times an exact power-of-two scale rs_i
+   (blocks of very different magnitude) *)
+Definition zqr (rs : list Q) (M : list (list Z)) : list (list Q) :=
+  map (fun ir => map (fun z => Qred (inject_Z z * fst ir)) (snd ir)) (combine rs M).
+
+Definition approx_inverse_r (n : nat) (rs : list Q) (A : list (list Z)) (Ai : list (list Q)) : bool :=
+  (length rs =? n)%nat && shapedb n n Ai
+  && approx_id n (qmm n (zqr rs A) Ai) && approx_id n (qmm n Ai (zqr rs A)).
+
+Definition inv_agrees_r (n : nat) (rs : list Q) (D : list (list Z)) (model_ok : bool) (model_err : err)
+                        (impl : res (list (list Q))) : bool :=
+  match impl with
+  | Ok Ai => model_ok && approx_inverse_r n rs D Ai
+  | Err e => negb model_ok && err_eqb e model_err
+  end.
+
+Definition tie_bd_r (csc : bool) (A : csr) (sz : list nat) (rs : list Q) (nnz_impl : list nat)
+                    (py_blocks : res (list (list (list Z))))
+                    (inv_py inv_nb : res (list (list Q)))
+                    (lay_ptr lay_idx : list nat) : bool :=
+  let szf := filter (fun s => 0 <? s)%nat sz in
+  let A' := if has_stored_zero A then eliminate_zeros A else A in
+  let mp := extract_blocks Python A sz in
+  let mn := extract_blocks Numba A sz in
+  let D := dense_of csc A in
+  eqb_listN (idx_nnz A' szf) nnz_impl
+  && res_eqb eqb_blocks mp py_blocks
+  && (match mp with
+      | Ok bs => eqb_matZ (block_diag 0%Z bs) (to_dense A)
+                 && eqb_listN (bdm_indptr szf) lay_ptr && eqb_listN (bdm_indices szf) lay_idx
+      | Err _ => true
+      end)
+  && inv_agrees_r (nmaj A) rs D (fst (res_parts mp)) (snd (res_parts mp)) inv_py
+  && inv_agrees_r (nmaj A) rs D (fst (res_parts mn)) (snd (res_parts mn)) inv_nb.
+
+Definition tie_perm_r (n : nat) (M : list (list Z)) (rs : list Q)
+                      (perm_impl : res (list nat * list nat * list nat))
+                      (abd_impl : list (list Z)) (inv_impl : res (list (list Q))) : bool :=
+  let cs := components n M in
+  let mp := perm_of_components n cs in
+  res_eqb eqb_perm3 mp perm_impl
+  && comps_closed n M cs
+  && match mp with
+     | Err _ => true
+     | Ok (rp, cp, sz) =>
+         let B := to_block_form 0%Z n M rp cp in
+         is_permb n rp && is_permb n cp
+         && eqb_matZ B abd_impl
+         && is_block_diag B sz
+         && match inv_impl with
+            | Ok Ai => approx_inverse_r n rs M Ai
+            | Err _ => false
+            end
+     end.
